@@ -14,11 +14,16 @@ from ..nestedcheck import NStream
 
 
 def knobs():
-    return nested.NKnobs()
+    return nested.NKnobs(p_suspend=0.25)
 
 
 def knobs_small():
-    return nested.NKnobs(max_states=6, max_depth=3, max_branch=3, max_history=8)
+    return nested.NKnobs(max_states=6, max_depth=3, max_branch=3, max_history=8, p_suspend=0.4)
+
+
+def knobs_models():
+    # several models on one machine, some of them falsy (always, or during every other call of theirs)
+    return nested.NKnobs(max_models=3, p_falsy=0.6, max_states=9, max_history=12, p_suspend=0.2)
 
 
 def knobs_enum():
@@ -57,6 +62,7 @@ class C02(nestedcheck.NestedCheck):
     streams = (
         NStream('random', knobs=knobs, quick=(16, 60), thorough=(48, 250)),
         NStream('random-small', knobs=knobs_small, quick=(8, 60), thorough=(24, 250)),
+        NStream('multi-model', knobs=knobs_models, quick=(8, 40), thorough=(16, 150)),
         NStream('enum-states', knobs=knobs_enum, quick=(8, 40), thorough=(16, 150), enum_states=True,
                 pool=('LockedHierarchicalMachine', 'HierarchicalAsyncMachine')),   # the Mermaid graph classes reject Enum children
         NStream('global-only', knobs=knobs_global, quick=(8, 50), thorough=(24, 200)),
@@ -64,7 +70,7 @@ class C02(nestedcheck.NestedCheck):
         NStream('5-states', enum=layer(5, 4), thorough=(64, 420), others=1, tiers=('thorough',)),
         NStream('6-states', enum=layer(6, 100), thorough=(64, 210), others=1, tiers=('thorough',)),
     )
-    theorems = ('TM.C02_inv_of_check', 'TM.C02_init', 'TM.C02_step_partial', 'TM.C02_step_clean', 'TM.C02_regression_stale_source', 'TM.C02_step_counterexample_run', 'TM.C02_step_counterexample', 'TM.C02_history', 'TM.C02_history_queued', 'TM.C02_step_exclusive', 'TM.C02_step_regions', 'TM.C02_step_global', 'TM.C02_history_regions', 'TM.C02_resolve_order', 'TM.C02_exit_children_first', 'TM.C02_enter_parents_first', 'TM.C02_entered_part_closed', 'TM.C02_new_configuration', 'TM.C02_state_value_roundtrip', 'TM.C02_monitor_accepts_model')
+    theorems = ('TM.C02_inv_of_check', 'TM.C02_init', 'TM.C02_step_partial', 'TM.C02_step_clean', 'TM.C02_regression_stale_source', 'TM.C02_step_counterexample_run', 'TM.C02_step_counterexample', 'TM.C02_history', 'TM.C02_history_queued', 'TM.C02_step_exclusive', 'TM.C02_step_regions', 'TM.C02_step_global', 'TM.C02_history_regions', 'TM.C02_resolve_order', 'TM.C02_exit_children_first', 'TM.C02_enter_parents_first', 'TM.C02_entered_part_closed', 'TM.C02_new_configuration', 'TM.C02_state_value_roundtrip', 'TM.C02_monitor_accepts_model', 'TM.C02_nesting_model', 'TM.C02_models_frame', 'TM.C02_models_history')
     rule = ('a case = (state tree, transition set, script, history); non-trivial iff at least one transition with a '
             'state change executed on HierarchicalMachine; distinct by the hash of the encoded case')
     trusted = (
